@@ -1200,7 +1200,8 @@ def pretty_cut(x: ArrayType1D, bins: ArrayType1D | List, precision: int = None):
         def get_decimals(x):
             x = str(x)
             int, *decimals = str(x).split(".")
-            return len(decimals)
+            # number of digits after the point (not the number of pieces)
+            return len(decimals[0]) if decimals else 0
 
         precision = max(map(get_decimals, bins))
 
